@@ -116,7 +116,7 @@ class Execution(object):
         self.w.close()
 
 
-def run_schedule(cfg, base, participants, prefix, track=None):
+def run_schedule(cfg, base, participants, prefix, track=None, horizon=None):
     """Replay `prefix` (list of choice indices) then default choices to completion.
     Returns (execution, choices, points) with points[i] = (order, running_still_enabled)."""
     e = Execution(cfg, base, participants, track=track)
@@ -143,8 +143,8 @@ def run_schedule(cfg, base, participants, prefix, track=None):
         trace.append(cur)
         e.step(cur)
         k += 1
-        if k > HORIZON:
-            e.error = (cur, "livelock: horizon of %d steps exceeded" % HORIZON)
+        if k > (horizon or getattr(run_schedule, "horizon", None) or HORIZON):
+            e.error = (cur, "livelock: horizon of %d steps exceeded" % (horizon or getattr(run_schedule, "horizon", None) or HORIZON))
             break
     e.trace = trace
     return e, choices, points
